@@ -15,7 +15,8 @@ RULE = ('translation validation: generated Lean definitions (cdf, generator) eva
         'boundary set {0,1e-12,1e-4,.5,1-1e-4,1-1e-12,1} x random interior points, shortcut-triggering '
         'compositions and invalid thetas; a case is distinct by (family, method, theta, rows) and non-trivial '
         'when the batch is non-empty')
-PARTIAL = ['two_increasing / frechet_lower: proved only where listed in Props/C06.lean',
+PARTIAL = ['Props/C06b: the Gumbel (and Clayton) closed forms extend continuously by 0 to the boundary u = 0 / v = 0 (one-sided limits, ContinuousOn the closed square); the value of the real formula AT 0 is a totalisation artefact (gumbel_formula_at_zero_is_junk); the IEEE evaluation there stays a Float-level tie',
+           'two_increasing / frechet_lower: proved only where listed in Props/C06.lean',
            'theta_ordered: not proved (search-supported only)',
            'gumbel cdf_zero: boundary u=0 or v=0 goes through IEEE log(0)=-inf; Float-level tie only']
 ASSUMPTIONS = ['real-number semantics of binary64 formulas (DESIGN 3.1)',
